@@ -25,7 +25,12 @@ EXPLANATION = (
     "E(h1 + lambda*O) at the unperturbed Hamiltonian; has_aux is set and the results are unpacked as "
     "(energy, derivative, state). SIB-1: every AD entry point shares the plain sampler's prologue, scanned "
     "block function and estimator (primal path identical at zero coupling; details in C12). GUARD-1: the "
-    "eigen-derivative used by the differentiable SCF never inverts a (near-)zero gap (C18)."
+    "eigen-derivative used by the differentiable SCF never inverts a (near-)zero gap (C18). "
+    "SIB-1: for every option combination the driver dispatches to, the blocks see trial.optimize(edited "
+    "Hamiltonian) unconditionally when orbital rotation is requested (a branch on the coupling gives "
+    "forward mode a different function than finite differences see). BIND-2: the third AD result is "
+    "carried to the next block as the state, the tangent output (index 1) is the value screened for "
+    "nan/inf. "
 )
 NOT_DECIDED = (
     "that JAX's derivative equals a finite difference (a property of JAX given purity), the analytic "
